@@ -2,6 +2,11 @@
 false alarms of the checks); it gets the texts of the properties anchored in that file and nothing from /verif"""
 import json, sys
 fname = sys.argv[1]; wt = sys.argv[2]; out = sys.argv[3]
+flavour = sys.argv[4] if len(sys.argv) > 4 else 'cleanup'
+FLAVOURS = {
+ 'cleanup': 'restructure conditionals, extract or inline helper functions, replace loops by comprehensions or vice versa, rename local variables, reorder independent statements, precompile regular expressions, simplify expressions, replace string formatting styles, tidy comments.',
+ 'internals': 'a change of INTERNAL representation that callers outside the package cannot observe: replace an internal list by a generator or tuple where only iteration is used, change the algorithm of a helper (e.g. a different but equivalent way to scan, split, search or accumulate), cache or hoist repeated computations, split a long function into private helpers, replace a regular expression by equivalent string methods or vice versa, change the order in which independent checks are made, use different but equivalent standard-library calls. Public attributes, method names and everything the properties below talk about must keep their behaviour; private helper names (leading underscore) that are not used outside their module may change.',
+}
 props = []
 for l in open('/verif/properties.jsonl'):
     p = json.loads(l)
@@ -10,7 +15,7 @@ for l in open('/verif/properties.jsonl'):
 txt = '\n\n'.join('PROPERTY %s - %s\nStatement: %s' % (p['id'], p['title'], p['statement']) for p in props)
 print(f"""You are helping to evaluate a verification effort for the Python project Erotemic/xdoctest (a rewrite of Python's doctest module). You get a private scratch git worktree of the repository at {wt} (a checkout of the current HEAD; work ONLY inside it and inside {out}; never touch /repo or /verif, never read /verif).
 
-YOUR TASK: write ONE realistic, BEHAVIOUR-PRESERVING refactoring of the file src/xdoctest/{fname} (or of functions in it), the kind of clean-up a maintainer would merge: restructure conditionals, extract or inline helper functions, replace loops by comprehensions or vice versa, rename local variables, reorder independent statements, precompile regular expressions, simplify expressions, replace string formatting styles, tidy comments. Touch 15-60 lines, in at least three different functions. The refactoring MUST NOT change any externally observable behaviour of xdoctest: same parse results, same verdicts, same reported line numbers, same exceptions (type and message), same printed output, same return values, same side effects. In particular the following semantic properties (which hold on the unchanged tree) must still hold, for ALL inputs, not just the tested ones:
+YOUR TASK: write ONE realistic, BEHAVIOUR-PRESERVING refactoring of the file src/xdoctest/{fname} (or of functions in it), the kind of change a maintainer would merge: {FLAVOURS[flavour]} Touch 15-60 lines, in at least three different functions. The refactoring MUST NOT change any externally observable behaviour of xdoctest: same parse results, same verdicts, same reported line numbers, same exceptions (type and message), same printed output, same return values, same side effects. In particular the following semantic properties (which hold on the unchanged tree) must still hold, for ALL inputs, not just the tested ones:
 
 {txt}
 
